@@ -188,6 +188,9 @@ func (e *Exec) sharing64(ev *Event, targets []int) {
 				order = append(order, b.Inner)
 			}
 			vs := view32(b.Inner, nil).Set
+			if vs.empty() { // a bucket that claims to be non-empty but holds nothing: judged by the content / well-formedness clauses
+				continue
+			}
 			by[b.Inner] = append(by[b.Inner], ref{s, b.Shared, uint64(b.Key)<<32 + vs.min()})
 		}
 	}
